@@ -47,7 +47,12 @@ type CapEvent struct {
 	Channel string                 // capture channel instance name
 	M       map[string]interface{} // snapshot of the key/value store (values as stored)
 	Ev      event.Event
+	J       string // with captureSnapJSON: the event's JSON at the moment it was sent ("" if it does not marshal)
 }
+
+// captureSnapJSON (C05): the capture channel serialises every event the moment it receives it, so that what an
+// asynchronous channel writes later can be compared with what the event was when it was emitted.
+var captureSnapJSON bool
 
 type captureHub struct {
 	mu     sync.Mutex
@@ -70,9 +75,15 @@ func (c *captureChannel) Send(e event.Event) {
 		}
 		return true
 	})
+	js := ""
+	if captureSnapJSON {
+		if b, err := json.Marshal(m); err == nil {
+			js = string(b)
+		}
+	}
 	hub.mu.Lock()
 	slow := hub.slowMs[c.Name]
-	hub.events = append(hub.events, CapEvent{Seq: len(hub.events), Step: hub.step, Channel: c.Name, M: m, Ev: e})
+	hub.events = append(hub.events, CapEvent{Seq: len(hub.events), Step: hub.step, Channel: c.Name, M: m, Ev: e, J: js})
 	hub.mu.Unlock()
 	if slow > 0 {
 		time.Sleep(time.Duration(slow) * time.Millisecond)
